@@ -346,6 +346,26 @@ func genMarkupHist(r *rand.Rand, tier string) *sx.Node {
 	if n > 0 && r.Intn(3) == 0 {
 		line = hist[r.Intn(n)] // the same line again
 	}
+	// shapes on which state left behind by the previous call would show: the history ends (or
+	// fails) right after a blank, a marker, an escape; the next line begins with escaped brackets and
+	// a marker whose treatment depends on "what came just before"
+	if r.Intn(3) == 0 {
+		last := g.doc() + []string{" ", "\t", "  ", " [b", "\t[", " \\", "[wave/]", " [a/] "}[r.Intn(8)]
+		hist = append(hist, sx.Str(last))
+	}
+	if r.Intn(3) == 0 {
+		var b strings.Builder
+		for k := r.Intn(3); k > 0; k-- {
+			b.WriteString([]string{"\\[", "\\]"}[r.Intn(2)])
+		}
+		b.WriteString([]string{"[wave/]", "[wave /]", "[x trimwhitespace=true]", "[x trimwhitespace=false/]", "[a=1/]",
+			"[select value=m m=\"he\"/]", "[nomarkup]q[/nomarkup]"}[r.Intn(7)])
+		b.WriteString([]string{" splash", "  two", " ", "x", "\tq"}[r.Intn(5)])
+		if r.Intn(2) == 0 {
+			b.WriteString([]string{"\\]", "[/]", " [b/] z"}[r.Intn(3)])
+		}
+		line = sx.Str(b.String())
+	}
 	return sx.Tag("markuphist", sx.List(hist...), line)
 }
 
